@@ -11,7 +11,7 @@
    exercised by the fuzzing stream only. *)
 From Verif Require Import Base.Str Base.Outcome Model.Ast Model.Token Model.Lexer Model.Parser Model.Listener
   Model.Printer Model.Transform Model.ModFile Model.WGraph Model.WWeights Spec.Sem
-  Model.Merge Spec.MergeSpec Proofs.TotalityProofs Proofs.WGraphProofs Proofs.WeightsProofs Proofs.ModFileProofs Proofs.MergeIff.
+  Model.Merge Spec.MergeSpec Proofs.TotalityProofs Proofs.WGraphProofs Proofs.WeightsProofs Proofs.ModFileProofs Proofs.MergeIff Proofs.MergeWf.
 
 (* the DSL printer, on any protobuf shape *)
 Theorem C08_printer_total : forall src m, is_panic (fst (print_model src m)) = false.
@@ -48,3 +48,6 @@ Proof. exact transform_mod_total. Qed.
    the decidable [wf_modulesb], evaluated on every generated set): no nil dereference in either phase *)
 Theorem C08_merge_total : forall fs v, wf_modules fs -> is_panic (merge fs v) = false.
 Proof. intros fs v H. apply merge_total; [intros f _; apply dsl_to_model_no_panic|exact H]. Qed.
+
+Theorem C08_merge_total_for_all_files : forall fs v, NoDup (map mf_name fs) -> is_panic (merge fs v) = false.
+Proof. exact merge_total_unconditional. Qed.
